@@ -4,6 +4,7 @@ import (
 	"fmt"
 	"iter"
 	"log/slog"
+	"reduction.dev/reduction/util/verifhook"
 	"strings"
 	"sync"
 
@@ -59,6 +60,7 @@ func Open(options DBOptions, initCheckpoints []recovery.CheckpointHandle) *DB {
 }
 
 func New(options DBOptions) *DB {
+	verifhook.Tune("dkv.options", &options)
 	// Default size to 64 MB
 	if options.MemTableSize == 0 {
 		options.MemTableSize = 64 * size.MB
@@ -97,6 +99,7 @@ func New(options DBOptions) *DB {
 		LevelSizeMultiplier:         10,
 		TargetTableSize:             int64(options.TargetFileSize),
 	}
+	verifhook.Tune("dkv.compactor", compactor)
 
 	db := &DB{
 		mtables: memtable.NewList(&memtable.MemTableOptions{
@@ -184,6 +187,7 @@ func (db *DB) Delete(key []byte) {
 
 func (db *DB) Get(key []byte) (kv.Entry, error) {
 	sstables := db.currentSSTables()
+	verifhook.Point("dkv.read.between_snapshots", db)
 
 	// First try to get from the memtables
 	v, err := db.mtables.Get(key)
@@ -201,6 +205,7 @@ func (db *DB) Get(key []byte) (kv.Entry, error) {
 
 func (db *DB) ScanPrefix(prefix []byte, errOut *error) iter.Seq[kv.Entry] {
 	sstables := db.currentSSTables()
+	verifhook.Point("dkv.read.between_snapshots", db)
 	iters := []iter.Seq[kv.Entry]{db.mtables.ScanPrefix(prefix, errOut), sstables.ScanPrefix(prefix, errOut)}
 	return kv.MergeEntries(iters)
 }
@@ -281,11 +286,13 @@ func (db *DB) rotateMemtable() {
 
 		// Replace the set of sstables, clear old memtables, clear wal entries all
 		// in one lock
+		verifhook.Point("dkv.flush.ready", db)
 		db.mu.Lock()
 		db.sstables = db.sstables.NewWithChangeSet(cs)
 		db.mtables.Dequeue(sealedTables)
 		db.wal.Truncate(db.sstables.LatestSeqNum)
 		db.mu.Unlock()
+		verifhook.Point("dkv.flush.swapped", db)
 
 		// Run compact steps until there is no changeset
 		db.tasks.Enqueue(compactionQueue, func() error {
@@ -298,9 +305,11 @@ func (db *DB) rotateMemtable() {
 					return nil
 				}
 
+				verifhook.Point("dkv.compact.ready", db)
 				db.mu.Lock()
 				db.sstables = db.sstables.NewWithChangeSet(cs)
 				db.mu.Unlock()
+				verifhook.Point("dkv.compact.swapped", db)
 			}
 		})
 
